@@ -327,6 +327,42 @@ def coap_post(M):
     return h
 
 
+def resumed_keys(M):
+    """key lifetime: a session that was resumed (Pair-Resume) starts its counters at 0 again, so it must not encrypt under the
+    previous session's keys - the real resume path of get_session_keys against the resuming accessory of harness/c01.py"""
+    from . import c01, hap
+
+    def h(ex):
+        be = hap.backend(ex, M.proto)
+        prev = c01.Accessory(be, eph="eP")
+        prev.shared = be.dh("eP", be.eph_pub("eQ"))
+        old_sid = prev.key(b"Pair-Verify-ResumeSessionID-Salt", b"Pair-Verify-ResumeSessionID-Info", 8)
+
+        def derive0(salt, info, length=32):
+            return M.proto.hkdf_derive(be.b(prev.shared), salt, info, length=length) if not be.sym else be.hkdf(prev.shared, salt, info, length)
+
+        gen = M.proto.get_session_keys(hap.pairing_data(), be.b(old_sid), derive0)
+        req, expected = gen.send(None)
+        ios_pub = dict(req)[c01.T_PUBKEY]
+        new_sid = be.arbitrary("newsid", 8)
+        tag = be.encrypt(be.hkdf(prev.shared, hap.cat(be, ios_pub, new_sid), b"Pair-Resume-Response-Info"), b"PR-Msg02", b"")
+        try:
+            c01.send(M, be, gen, [(c01.T_STATE, b"\x02"), (c01.T_METHOD, b"\x06"), (c01.T_SESSION, new_sid), (c01.T_ENC, tag)], None)
+        except StopIteration as r:
+            sid, derive = r.value
+        except Exception:
+            return ex.observe("resume-refused")
+        else:
+            return ex.observe("not-resumed")
+        ex.tag("resumed")
+        for info in (b"Control-Write-Encryption-Key", b"Control-Read-Encryption-Key"):
+            new, old = derive(b"Control-Salt", info), derive0(b"Control-Salt", info)
+            same = decide(rope_eq(new, old)) if be.sym else bytes(new) == bytes(old)
+            ex.require(not same, "a resumed session (counters restart at 0) does not reuse the previous session's %s" % info.decode())
+        return ex.observe("resumed")
+    return h
+
+
 def build(tier, mutate=None):
     C = copies(mutate)
     R = reals()
@@ -341,6 +377,10 @@ def build(tier, mutate=None):
                           regions=[] if op == "encrypt" else ["accepted", "rejected"]))
     units.append(Unit("coap/post_bytes-step", coap_post(C), coap_post(R), bounds={"counters": "0..2^48 (symbolic)", "exchange outcome": POST_OUTCOMES},
                       regions=["completed", "cancelled"]))
+    if tier != "canary":
+        from . import c01
+        units.append(Unit("session/resumed-keys-differ", resumed_keys(c01.copies(mutate)), resumed_keys(c01.reals()),
+                          bounds={"exchange": "an accepted Pair-Resume (any new session id)"}, regions=["resumed"]))
     # IP send step (the outbound half of C05 from an arbitrary send counter) and the BLE broadcast step (C18) complete the picture
     from . import ble_adv as BA
     from . import c05, c18
